@@ -152,3 +152,398 @@ Ltac dstep Hs :=
          | match ?e with _ => _ end = Some _ =>
              let E := fresh "E" in destruct e eqn:E; try discriminate Hs
          end.
+
+(* ------------------------------------------------------------------ *)
+(* Part 2: MapIterator                                                 *)
+(* ------------------------------------------------------------------ *)
+Module MIP.
+Import MI.
+
+Definition ditem (d : dpc) : option nat :=
+  match d with DAcq k | DParked k | DSend k => Some k | _ => None end.
+Definition dflag (d : dpc) : nat := match d with DAcq _ | DParked _ => 1 | _ => 0 end.
+(* number of items handed to workers so far *)
+Definition dd (s : st) : nat := match ditem (disp s) with Some k => k | None => pulled s end.
+
+Definition held (x : wpc) : option nat :=
+  match x with WHas k | WInF k | WSend k _ => Some k | _ => None end.
+Definition holdsb (k : nat) (x : wpc) : bool :=
+  match held x with Some j => Nat.eqb j k | None => false end.
+Definition wcnt (k : nat) (l : list wpc) : nat := wsum (fun x => b2n (holdsb k x)) l.
+Definition is_done (x : wpc) : bool := match x with WDone => true | _ => false end.
+Definition inrange (s : st) (k : nat) : bool := (next s <=? k) && (k <? dd s).
+
+Section Proofs.
+Variable fv : Z -> Z.
+
+Record Inv (s : st) : Prop := {
+  i_par : 1 <= length (ws s) /\ (Z.of_nat (length (ws s)) <= buf s)%Z;
+  i_pull : pulled s <= length (src s);
+  i_item : forall k, ditem (disp s) = Some k -> S k = pulled s;
+  i_infl : inflight s = (Z.of_nat (pulled s) - Z.of_nat (next s) - Z.of_nat (dflag (disp s)))%Z;
+  i_cap : (inflight s <= buf s)%Z;
+  i_park : forall k, disp s = DParked k -> inflight s = buf s;
+  i_next : next s <= dd s;
+  i_cnt : forall k, wcnt k (ws s) + hcnt k (heap s) = b2n (inrange s k);
+  i_wval : forall w k v, nth_error (ws s) w = Some (WSend k v) -> v = fv (nth k (src s) 0%Z);
+  i_hval : Forall (fun e : entry => snd e = fv (nth (fst e) (src s) 0%Z)) (heap s);
+  i_sorted : StronglySorted hle (heap s);
+  i_yield : yielded s = map fv (firstn (next s) (src s));
+  i_inclosed : in_closed s = true <-> disp s = DDone;
+  i_wexit : forall w x, nth_error (ws s) w = Some x -> (x = WExit \/ x = WDone) -> in_closed s = true;
+  i_ndone : ndone s = wsum (fun x => b2n (is_done x)) (ws s);
+  i_chclosed : ch_closed s = Nat.eqb (ndone s) (length (ws s));
+  i_srcend : (disp s = DCloseIn \/ disp s = DDone) -> pulled s = length (src s);
+  i_nomatch : cons s = CRecv -> hmatch (heap s) (next s) = false;
+  i_end : cons s = CRet None -> next s = length (src s)
+}.
+
+Lemma wcnt_upd k l w x y :
+  nth_error l w = Some y -> wcnt k (upd l w x) + b2n (holdsb k y) = wcnt k l + b2n (holdsb k x).
+Proof. intros H. unfold wcnt. apply (wsum_upd (fun x => b2n (holdsb k x)) l w x y H). Qed.
+
+Lemma wcnt_upd_same k l w x y :
+  nth_error l w = Some y -> held x = held y -> wcnt k (upd l w x) = wcnt k l.
+Proof.
+  intros H Hh. pose proof (wcnt_upd k l w x y H) as E. unfold holdsb in E. rewrite Hh in E. lia.
+Qed.
+
+Lemma inv_init g par bufsz items gated : (1 <= g)%Z -> Inv (init g par bufsz items gated).
+Proof.
+  intros Hg. pose proof (norm_par_pos g par Hg) as Hp.
+  pose proof (norm_buf_ge (norm_par g par) bufsz) as Hb.
+  constructor; unfold init, dd, inrange; simpl; rewrite ?repeat_length; try lia; try discriminate.
+  - intros k. unfold wcnt. rewrite wsum_repeat. unfold hcnt. simpl.
+    destruct (k <? 0) eqn:E; [apply Nat.ltb_lt in E; lia|]. simpl. lia.
+  - intros w k v H. apply nth_error_In in H. apply repeat_spec in H. discriminate.
+  - constructor.
+  - constructor.
+  - reflexivity.
+  - split; discriminate.
+  - intros w x H. apply nth_error_In in H. apply repeat_spec in H. subst x. intros [E|E]; discriminate.
+  - rewrite wsum_repeat. simpl. lia.
+  - destruct (Z.to_nat (norm_par g par)) eqn:E; [lia | reflexivity].
+  - intros [E|E]; discriminate.
+Qed.
+
+Ltac start HI := destruct HI as [Hpar Hpull Hitem Hinfl Hcap Hpark Hnext Hcnt Hwval Hhval Hsorted Hyield Hincl Hwexit Hndone Hchcl Hsrcend Hnomatch Hend].
+Ltac prj := cbn [src buf rel reqs pulled disp inflight ws in_closed ndone ch_closed heap next cons yielded
+                 ditem dflag set_disp set_w set_cons getw] in *.
+Ltac pre := unfold inrange, dd, set_disp, set_w, set_cons, getw in *; prj.
+Ltac rw :=
+  repeat match goal with
+         | E : disp _ = _ |- _ => rewrite E in *; clear E
+         | E : cons _ = _ |- _ => rewrite E in *; clear E
+         end; prj.
+Ltac bdestr :=
+  repeat match goal with
+         | |- context [Nat.eqb ?a ?b] => destruct (Nat.eqb_spec a b)
+         | H : context [Nat.eqb ?a ?b] |- _ => destruct (Nat.eqb_spec a b)
+         | |- context [Nat.leb ?a ?b] => destruct (Nat.leb_spec a b)
+         | H : context [Nat.leb ?a ?b] |- _ => destruct (Nat.leb_spec a b)
+         | |- context [Nat.ltb ?a ?b] => destruct (Nat.ltb_spec a b)
+         | H : context [Nat.ltb ?a ?b] |- _ => destruct (Nat.ltb_spec a b)
+         end; cbn [b2n andb orb negb] in *; try lia.
+Ltac easy1 :=
+  first [ assumption | lia | discriminate | congruence
+        | (intros; discriminate) | (intros; congruence) | (intros; lia)
+        | (split; intros; congruence) | (intros [?|?]; congruence)
+        | match goal with Hincl : _ <-> _ |- _ <-> _ =>
+            split; [let X := fresh in intros X; apply Hincl in X; discriminate X
+                   | let X := fresh in intros X; discriminate X] end ].
+(* goals quantified over the worker list after an update at position w (Hy : nth_error (ws s) w = Some y) *)
+Ltac wq Hy :=
+  intros until 1;
+  match goal with
+  | H : nth_error (upd _ _ _) _ = Some _ |- _ =>
+      destruct (nth_upd_cases _ _ _ _ _ _ Hy H) as [[? ?]|[? ?]]; subst
+  end.
+(* the standard obligations after worker w moved from y to x *)
+Ltac wfields Hy Hcnt Hwval Hwexit Hndone :=
+  solve
+    [ (* count *)
+      match goal with |- forall k, wcnt k (upd _ ?w ?x) + _ = _ =>
+        let k0 := fresh "k0" in let U := fresh "U" in
+        intros k0; pose proof (wcnt_upd k0 _ _ x _ Hy) as U; specialize (Hcnt k0);
+        unfold holdsb in U; cbn [held] in U; bdestr end
+    | (* ndone *)
+      match goal with |- _ = wsum _ (upd _ ?w ?x) =>
+        let U := fresh "U" in
+        pose proof (wsum_upd (fun q => b2n (is_done q)) _ _ x _ Hy) as U; cbn [is_done b2n] in U; lia end
+    | (* values / exits *)
+      (wq Hy; solve [ eapply Hwval; eassumption | eapply Hwexit; eassumption | congruence
+                    | (intros [?|?]; congruence) | (intros [?|?]; discriminate) ]) ].
+
+Lemma inv_step s l s' : Inv s -> step fv s l = Some s' -> Inv s'.
+Proof.
+  intros HI Hs. unfold step in Hs. destruct l.
+  - (* LSrcEnter *)
+    dstep Hs. injection Hs as Hs; subst s'. start HI; pre; rw. constructor; pre; try easy1.
+  - (* LSrcExit *)
+    dstep Hs; injection Hs as Hs; subst s'; start HI; pre; rw.
+    + apply Nat.ltb_lt in E0. constructor; pre; try easy1.
+    + apply Nat.ltb_ge in E0. constructor; pre; try easy1.
+  - (* LFEnter *)
+    dstep Hs. injection Hs as Hs; subst s'. apply Nat.eqb_eq in E1; subst k0.
+    start HI; pre; rw. constructor; pre; rewrite ?upd_length; try easy1;
+      try wfields E Hcnt Hwval Hwexit Hndone.
+  - (* LFExit *)
+    dstep Hs. injection Hs as Hs; subst s'. apply andb_true_iff in E1. destruct E1 as [E1 Erel].
+    apply Nat.eqb_eq in E1; subst k0.
+    start HI; pre; rw. constructor; pre; rewrite ?upd_length; try easy1;
+      try wfields E Hcnt Hwval Hwexit Hndone.
+  - (* LCallNext *)
+    dstep Hs. injection Hs as Hs; subst s'. start HI; pre; rw. constructor; pre; try easy1.
+  - (* LRetNext *)
+    dstep Hs. injection Hs as Hs; subst s'. start HI; pre; rw. constructor; pre; try easy1.
+  - (* LReqNext *)
+    injection Hs as Hs; subst s'. start HI; pre; rw. constructor; pre; try easy1.
+  - (* LRelease *)
+    injection Hs as Hs; subst s'. start HI; pre; rw. constructor; pre; try easy1.
+  - discriminate Hs.
+  - (* TAcquire *)
+    dstep Hs; injection Hs as Hs; subst s'; start HI; pre; rw.
+    + apply Z.geb_le in E0. constructor; pre; try easy1.
+    + rewrite Z.geb_leb in E0. apply Z.leb_gt in E0. constructor; pre; try easy1.
+  - (* TDispatch *)
+    dstep Hs. injection Hs as Hs; subst s'. start HI; pre; rw.
+    pose proof (Hitem k eq_refl) as Hk.
+    constructor; pre; rewrite ?upd_length; try easy1; try wfields E0 Hcnt Hwval Hwexit Hndone.
+  - (* TCloseIn *)
+    dstep Hs. injection Hs as Hs; subst s'. start HI; pre; rw. constructor; pre; try easy1.
+    intros _. apply Hsrcend. left; reflexivity.
+  - (* TInClosed *)
+    dstep Hs. injection Hs as Hs; subst s'. start HI; pre; rw.
+    constructor; pre; rewrite ?upd_length; try easy1; try wfields E Hcnt Hwval Hwexit Hndone.
+  - (* TWorkerDone *)
+    dstep Hs. injection Hs as Hs; subst s'. start HI; pre; rw.
+    pose proof (wsum_upd (fun q => b2n (is_done q)) _ _ WDone _ E) as U. cbn [is_done b2n] in U.
+    pose proof (wsum_le_length (fun q => b2n (is_done q)) (upd (ws s) w WDone)) as L.
+    rewrite upd_length in L.
+    assert (Hlt : ndone s < length (ws s)).
+    { assert (wsum (fun q => b2n (is_done q)) (upd (ws s) w WDone) <= length (ws s)).
+      { apply L. intros x. destruct (is_done x); simpl; lia. }
+      lia. }
+    constructor; pre; rewrite ?upd_length; try easy1; try wfields E Hcnt Hwval Hwexit Hndone.
+    + wq E; intros Hx; [eapply Hwexit; [exact E | left; reflexivity] | eapply Hwexit; eauto].
+    + rewrite Hchcl. replace (ndone s =? length (ws s)) with false by (symmetry; apply Nat.eqb_neq; lia).
+      reflexivity.
+  - (* TLoop *)
+    dstep Hs; injection Hs as Hs; subst s'; start HI; pre; rw.
+    + (* empty heap *) constructor; pre; try easy1. intros _. rewrite E0. reflexivity.
+    + (* pop *)
+      apply Nat.eqb_eq in E2. subst n. rename l into t. rename z into v. rewrite E0 in *.
+      assert (Hc1 : wcnt (next s) (ws s) + hcnt (next s) ((next s, v) :: t) = 1 /\ inrange s (next s) = true).
+      { pose proof (Hcnt (next s)) as C. unfold inrange, dd. unfold hcnt in *. simpl in C |- *.
+        rewrite Nat.eqb_refl in *. simpl in C |- *.
+        destruct ((next s <=? next s) && (next s <? match ditem (disp s) with Some k0 => k0 | None => pulled s end));
+          simpl in C; [split; [lia | reflexivity] | lia]. }
+      destruct Hc1 as [Hc1 Hr]. unfold inrange, dd in Hr. apply andb_true_iff in Hr. destruct Hr as [_ Hr].
+      apply Nat.ltb_lt in Hr.
+      assert (Hdd : forall d', ditem d' = ditem (disp s) ->
+                match ditem d' with Some k0 => k0 | None => pulled s end =
+                match ditem (disp s) with Some k0 => k0 | None => pulled s end).
+      { intros d' ->. reflexivity. }
+      set (d' := match disp s with
+                 | DParked j => if (inflight s - 1 =? buf s - 1)%Z then DAcq j else DParked j
+                 | d => d end).
+      assert (Hd' : ditem d' = ditem (disp s) /\ dflag d' = dflag (disp s)).
+      { unfold d'. destruct (disp s); auto. destruct (inflight s - 1 =? buf s - 1)%Z; auto. }
+      destruct Hd' as [Hd1 Hd2].
+      assert (Hle : match ditem (disp s) with Some k0 => k0 | None => pulled s end <= pulled s).
+      { destruct (ditem (disp s)) eqn:Ed; [specialize (Hitem _ eq_refl); lia | lia]. }
+      constructor; pre; try easy1.
+      * rewrite Hd1. exact Hitem.
+      * intros k Hk. unfold d' in Hk. destruct (disp s) eqn:Ed; try discriminate Hk.
+        destruct (inflight s - 1 =? buf s - 1)%Z eqn:Eb; [discriminate Hk|].
+        apply Z.eqb_neq in Eb. specialize (Hpark _ eq_refl). lia.
+      * rewrite Hd1. lia.
+      * intros k. rewrite Hd1. specialize (Hcnt k). unfold hcnt in *. simpl in Hcnt. bdestr.
+      * inversion Hhval; assumption.
+      * inversion Hsorted; assumption.
+      * inversion Hhval as [|a b Hv Ht]; subst. simpl in Hv. subst v.
+        rewrite (firstn_S_nth (src s) (next s) 0%Z) by lia. rewrite map_app. simpl. rewrite Hyield. reflexivity.
+      * rewrite Hincl. unfold d'. destruct (disp s); try (split; intros; congruence).
+        destruct (inflight s - 1 =? buf s - 1)%Z; split; intros; congruence.
+      * unfold d'. intros [X|X]; destruct (disp s); try discriminate X; try (apply Hsrcend; auto; fail);
+          destruct (inflight s - 1 =? buf s - 1)%Z; discriminate X.
+    + (* no match *) constructor; pre; try easy1. intros _. rewrite E0. simpl. exact E2.
+  - (* TResult *)
+    dstep Hs. injection Hs as Hs; subst s'. start HI; pre; rw.
+    constructor; pre; rewrite ?upd_length; try easy1; try wfields E Hcnt Hwval Hwexit Hndone.
+    + intros j. pose proof (wcnt_upd j _ _ WIdle _ E) as U. specialize (Hcnt j).
+      unfold holdsb in U; cbn [held] in U. rewrite hcnt_push. cbn [fst]. bdestr.
+    + apply hpush_Forall; [simpl; eapply Hwval; eauto | exact Hhval].
+    + apply hpush_sorted. exact Hsorted.
+  - (* TChClosed *)
+    dstep Hs. injection Hs as Hs; subst s'. start HI; pre; rw.
+    constructor; pre; try easy1.
+    intros _.
+    rewrite Hchcl in E0. apply Nat.eqb_eq in E0.
+    assert (Hall : forall w x, nth_error (ws s) w = Some x -> x = WDone).
+    { intros w x Hx. rewrite Hndone in E0.
+      pose proof (wsum_full (fun q => b2n (is_done q)) (ws s)
+                            ltac:(intros q; cbv beta; destruct (is_done q); simpl; lia) E0 w x Hx) as F.
+      destruct x; simpl in F; try discriminate F. reflexivity. }
+    destruct (ws s) as [|x0 tl] eqn:Ews; [simpl in Hpar; lia|].
+    assert (Hic : in_closed s = true).
+    { apply (Hwexit 0 x0 eq_refl). right. apply (Hall 0 x0 eq_refl). }
+    apply Hincl in Hic. rewrite Hic in *. prj. specialize (Hsrcend (or_intror eq_refl)).
+    destruct (Nat.eq_dec (next s) (pulled s)) as [|Hne]; [congruence|]. exfalso.
+    assert (Hw0 : forall j, wcnt j (x0 :: tl) = 0).
+    { intros j. apply wsum_zero. intros w x Hx. rewrite (Hall w x Hx). reflexivity. }
+    assert (Hm : hmatch (heap s) (next s) = true).
+    { apply head_is_next; [exact Hsorted | |].
+      - intros j Hj. specialize (Hcnt j). rewrite Hw0 in Hcnt. bdestr.
+      - pose proof (Hcnt (next s)) as C. rewrite Hw0 in C. bdestr. }
+    rewrite Hnomatch in Hm by reflexivity. discriminate Hm.
+Qed.
+
+Lemma qstep_cases s l s' :
+  qstep fv s l = Some s' -> (l = LQuiesce /\ s' = s) \/ step fv s l = Some s'.
+Proof.
+  destruct l; simpl; auto. destruct (quiescent fv s); [|discriminate]. intros H; inversion H; auto.
+Qed.
+
+Lemma inv_qstep s l s' : Inv s -> qstep fv s l = Some s' -> Inv s'.
+Proof.
+  intros HI Hq. destruct (qstep_cases _ _ _ Hq) as [[_ ->]|Hs]; [exact HI | eapply inv_step; eauto].
+Qed.
+
+Theorem reachable_inv g par bufsz items gated s :
+  (1 <= g)%Z -> reachable (qstep fv) (init g par bufsz items gated) s -> Inv s.
+Proof. intros Hg. apply invariant_rule; [apply inv_init; exact Hg | exact inv_qstep]. Qed.
+
+(* the configuration never changes *)
+Definition Conf (items : list Z) (b : Z) (p : nat) (s : st) : Prop :=
+  src s = items /\ buf s = b /\ length (ws s) = p.
+
+Lemma conf_step items b p s l s' : Conf items b p s -> step fv s l = Some s' -> Conf items b p s'.
+Proof.
+  unfold Conf. intros HC Hs. unfold step in Hs.
+  destruct l; dstep Hs; try discriminate Hs; injection Hs as Hs; subst s'; pre; rewrite ?upd_length; exact HC.
+Qed.
+
+Theorem reachable_conf g par bufsz items gated s :
+  reachable (qstep fv) (init g par bufsz items gated) s ->
+  Conf items (norm_buf (norm_par g par) bufsz) (Z.to_nat (norm_par g par)) s.
+Proof.
+  apply invariant_rule.
+  - unfold Conf, init; simpl. rewrite repeat_length. auto.
+  - intros s0 l s1 HC Hq. destruct (qstep_cases _ _ _ Hq) as [[_ ->]|Hs]; [exact HC | eapply conf_step; eauto].
+Qed.
+
+(* ---- classification of the worker list ---- *)
+Lemma ws_cases (l : list wpc) :
+  (forall w x, nth_error l w = Some x -> x = WIdle \/ x = WDone) \/
+  (exists w x, nth_error l w = Some x /\ x <> WIdle /\ x <> WDone).
+Proof.
+  induction l as [|h t IH].
+  - left. intros [|w] x H; discriminate H.
+  - destruct IH as [IH|(w & x & Hx & Hn)].
+    + destruct h; try (right; exists 0; eexists; simpl; split; [reflexivity | split; discriminate]).
+      * left. intros [|w] x H; simpl in H; [inversion H; auto | eapply IH; eauto].
+      * left. intros [|w] x H; simpl in H; [inversion H; auto | eapply IH; eauto].
+    + right. exists (S w), x. auto.
+Qed.
+
+Lemma ws_idle_or_alldone (l : list wpc) :
+  (forall w x, nth_error l w = Some x -> x = WIdle \/ x = WDone) ->
+  (exists w, nth_error l w = Some WIdle) \/ (forall w x, nth_error l w = Some x -> x = WDone).
+Proof.
+  induction l as [|h t IH]; intros H.
+  - right. intros [|w] x Hx; discriminate Hx.
+  - destruct (H 0 h eq_refl) as [->| ->].
+    + left. exists 0. reflexivity.
+    + destruct (IH (fun w x Hx => H (S w) x Hx)) as [[w Hw]|Hall].
+      * left. exists (S w). exact Hw.
+      * right. intros [|w] x Hx; simpl in Hx; [inversion Hx; reflexivity | eapply Hall; eauto].
+Qed.
+
+Lemma optZ_eqb_refl r : optZ_eqb r r = true.
+Proof. destruct r; simpl; [apply Z.eqb_refl | reflexivity]. Qed.
+
+Definition in_next (s : st) : Prop := cons s <> CIdle.
+Definition env_pending (s : st) : Prop :=
+  disp s = DInSrc \/ exists w k, nth_error (ws s) w = Some (WInF k).
+
+Lemma progress_inv s :
+  Inv s -> in_next s ->
+  (exists l s', is_lib l = true /\ step fv s l = Some s') \/ env_pending s.
+Proof.
+  intros HI Hin. unfold in_next in Hin. unfold env_pending.
+  destruct (cons s) eqn:Ec; [congruence | | |].
+  - (* CLoop *) left. exists TLoop. unfold step. rewrite Ec.
+    destruct (heap s) as [|[k v] t]; [eexists; split; reflexivity|].
+    destruct (k =? next s); eexists; split; reflexivity.
+  - (* CRecv *)
+    destruct (ws_cases (ws s)) as [Hall|(w & x & Hx & Hn1 & Hn2)].
+    2:{ destruct x; try congruence.
+        - left. exists (LFEnter w k). unfold step, getw. rewrite Hx, Nat.eqb_refl. eexists; split; reflexivity.
+        - right. right. eauto.
+        - left. exists (TResult w). unfold step, getw. rewrite Hx, Ec. eexists; split; reflexivity.
+        - left. exists (TWorkerDone w). unfold step, getw. rewrite Hx. eexists; split; reflexivity. }
+    destruct (ch_closed s) eqn:Ecc.
+    { left. exists TChClosed. unfold step. rewrite Ec, Ecc. eexists; split; reflexivity. }
+    start HI.
+    destruct (ws_idle_or_alldone _ Hall) as [[w Hw]|Hd].
+    2:{ exfalso. rewrite Hchcl in Ecc. apply Nat.eqb_neq in Ecc. apply Ecc. rewrite Hndone.
+        apply wsum_all. intros w x Hx. rewrite (Hd w x Hx). reflexivity. }
+    destruct (disp s) eqn:Ed.
+    + left. exists LSrcEnter. unfold step. rewrite Ed. eexists; split; reflexivity.
+    + right. left. reflexivity.
+    + left. exists TAcquire. unfold step. rewrite Ed. destruct (inflight s >=? buf s)%Z; eexists; split; reflexivity.
+    + (* DParked: impossible *)
+      exfalso. pose proof (Hpark k eq_refl) as Hb. pose proof (Hitem k eq_refl) as Hk.
+      unfold inrange, dd in *. rewrite Ed in *. cbn [ditem dflag] in *.
+      assert (Hw0 : forall j, wcnt j (ws s) = 0).
+      { intros j. apply wsum_zero. intros w' x Hx. destruct (Hall w' x Hx) as [-> | ->]; reflexivity. }
+      assert (Hm : hmatch (heap s) (next s) = true).
+      { apply head_is_next; [exact Hsorted | |].
+        - intros j Hj. specialize (Hcnt j). rewrite Hw0 in Hcnt. bdestr.
+        - pose proof (Hcnt (next s)) as C. rewrite Hw0 in C. bdestr. }
+      rewrite (Hnomatch Ec) in Hm. discriminate Hm.
+    + left. exists (TDispatch w). unfold step, getw. rewrite Ed, Hw. eexists; split; reflexivity.
+    + left. exists TCloseIn. unfold step. rewrite Ed. eexists; split; reflexivity.
+    + left. exists (TInClosed w). unfold step, getw. rewrite Hw.
+      replace (in_closed s) with true by (symmetry; apply Hincl; reflexivity). eexists; split; reflexivity.
+  - (* CRet *) left. exists (LRetNext r). unfold step. rewrite Ec, optZ_eqb_refl. eexists; split; reflexivity.
+Qed.
+
+(* ---- the clauses of C14 for MapIterator ---- *)
+Theorem in_order_exactly_once g par bufsz items gated s :
+  (1 <= g)%Z -> reachable (qstep fv) (init g par bufsz items gated) s ->
+  yielded s = map fv (firstn (next s) items) /\ next s <= length items /\
+  (cons s = CRet None -> yielded s = map fv items).
+Proof.
+  intros Hg Hr. pose proof (reachable_inv _ _ _ _ _ _ Hg Hr) as HI.
+  destruct (reachable_conf _ _ _ _ _ _ Hr) as (Hsrc & _ & _). start HI. rewrite Hsrc in *.
+  split; [exact Hyield|]. split.
+  - unfold dd in Hnext. destruct (ditem (disp s)) eqn:Ed; [specialize (Hitem _ eq_refl); lia | lia].
+  - intros Hc. rewrite Hyield, (Hend Hc). rewrite firstn_all. reflexivity.
+Qed.
+
+Theorem inflight_bound g par bufsz items gated s :
+  (1 <= g)%Z -> reachable (qstep fv) (init g par bufsz items gated) s ->
+  (Z.of_nat (pulled s) - Z.of_nat (next s) <= norm_buf (norm_par g par) bufsz + 1)%Z.
+Proof.
+  intros Hg Hr. pose proof (reachable_inv _ _ _ _ _ _ Hg Hr) as HI.
+  destruct (reachable_conf _ _ _ _ _ _ Hr) as (_ & Hbuf & _). start HI. rewrite Hbuf in *.
+  destruct (disp s); cbn [dflag] in Hinfl; lia.
+Qed.
+
+Corollary inflight_bound_property g par bufsz items gated s :
+  (1 <= g)%Z -> reachable (qstep fv) (init g par bufsz items gated) s ->
+  (Z.of_nat (pulled s) - Z.of_nat (next s) <= Z.max 0 bufsz + norm_par g par + 1)%Z.
+Proof.
+  intros Hg Hr. pose proof (inflight_bound _ _ _ _ _ _ Hg Hr) as H.
+  pose proof (norm_par_pos g par Hg) as Hp.
+  unfold norm_buf in H. destruct (bufsz <? norm_par g par)%Z eqn:E; [lia|]. apply Z.ltb_ge in E. lia.
+Qed.
+
+Theorem no_deadlock g par bufsz items gated s :
+  (1 <= g)%Z -> reachable (qstep fv) (init g par bufsz items gated) s -> in_next s ->
+  (exists l s', is_lib l = true /\ step fv s l = Some s') \/ env_pending s.
+Proof. intros Hg Hr. apply progress_inv. eapply reachable_inv; eauto. Qed.
+End Proofs.
+End MIP.
